@@ -272,7 +272,8 @@ func vGenTimeC01(t *rapid.T, label string, caps vCapsC01) (int64, int64) {
 		sec = rapid.Int64Range(1400000000, 1750000000).Draw(t, label+"Sec")
 	case 3, 4:
 		sec = rapid.SampledFrom([]int64{0, 1, -1, -2, -86400, -2147483648, -2147483647, 2147483647, 2147483648, 4294967295, 4294967296,
-			9223372035, 9223372036, 946684800, 1e9, 253402300, 5000000000}).Draw(t, label+"Odd")
+			9223372035, 9223372036, 946684800, 1e9, 253402300, 5000000000,
+			9223372037, 10000000000, 15032385535}).Draw(t, label+"Odd") // the last three: beyond time.Time.UnixNano, within ext4
 	default:
 		sec = rapid.Int64Range(-2147483648, 9223372035).Draw(t, label+"Any")
 	}
@@ -905,6 +906,7 @@ func (d *vDiffC01) String() string {
 const (
 	vKnownHardlinkNonRegularC01 = "C01:hardlinked-nonregular-not-linked"
 	vKnownXattrNameC01          = "C01:xattr-name-invalid-utf8-mangled"
+	vKnownMtimeOverflowC01      = "C01:mtime-beyond-2262-unixnano-overflow"
 )
 
 // vCompareC01 compares the observed source with the observed restored tree.
@@ -957,7 +959,12 @@ func vCompareC01(src, srcAfter, dst map[string]*vObsC01, withAtime, rootMeta boo
 			diffs = append(diffs, fmt.Sprintf("mode %04o != %04o", g.Mode, s.Mode))
 		}
 		if s.Msec != g.Msec || s.Mnsec != g.Mnsec {
-			diffs = append(diffs, fmt.Sprintf("mtime %d.%09d != %d.%09d", g.Msec, g.Mnsec, s.Msec, s.Mnsec))
+			if vBeyondUnixNanoC01(s.Msec, s.Mnsec) {
+				// known shape, narrowly: the source mtime is later than 2262-04-11T23:47:16.854775807Z
+				d.add(vKnownMtimeOverflowC01, "%q (%c): mtime %d.%09d != %d.%09d", p, s.Type, g.Msec, g.Mnsec, s.Msec, s.Mnsec)
+			} else {
+				diffs = append(diffs, fmt.Sprintf("mtime %d.%09d != %d.%09d", g.Msec, g.Mnsec, s.Msec, s.Mnsec))
+			}
 		}
 		if s.UID != g.UID || s.GID != g.GID {
 			diffs = append(diffs, fmt.Sprintf("owner %d:%d != %d:%d", g.UID, g.GID, s.UID, s.GID))
@@ -994,7 +1001,11 @@ func vCompareC01(src, srcAfter, dst map[string]*vObsC01, withAtime, rootMeta boo
 			a := srcAfter[p]
 			// the atime restic stored was read between the two observations of the source
 			if a != nil && a.Asec == s.Asec && a.Ansec == s.Ansec && (g.Asec != s.Asec || g.Ansec != s.Ansec) {
-				d.add("", "%q (%c): atime %d.%09d != %d.%09d (--with-atime)", p, s.Type, g.Asec, g.Ansec, s.Asec, s.Ansec)
+				known := ""
+				if vBeyondUnixNanoC01(s.Asec, s.Ansec) {
+					known = vKnownMtimeOverflowC01
+				}
+				d.add(known, "%q (%c): atime %d.%09d != %d.%09d (--with-atime)", p, s.Type, g.Asec, g.Ansec, s.Asec, s.Ansec)
 			}
 		}
 	}
@@ -1074,6 +1085,11 @@ func vJSONStringC01(s string) string {
 		i += w
 	}
 	return sb.String()
+}
+
+// vBeyondUnixNanoC01: the time stamp is later than the largest value of time.Time.UnixNano.
+func vBeyondUnixNanoC01(sec, nsec int64) bool {
+	return sec > 9223372036 || (sec == 9223372036 && nsec > 854775807)
 }
 
 func vShortC01(s string) string {
@@ -1166,7 +1182,7 @@ func vRunC01(t vFatalC01, st *verifkit.Stats, sp *vSpecC01, classes []string) {
 	}
 
 	// classes, measured on what is really on disk
-	var nonUTF8, special, sockets, xattrs, multichunk, zerorun, symlinks, dirs, files, oddTime, sbits, owned int
+	var nonUTF8, special, sockets, xattrs, multichunk, zerorun, symlinks, dirs, files, oddTime, farTime, sbits, owned int
 	for p, o := range before {
 		if !utf8.ValidString(p) {
 			nonUTF8++
@@ -1216,7 +1232,7 @@ func vRunC01(t vFatalC01, st *verifkit.Stats, sp *vSpecC01, classes []string) {
 	}
 	classes = append(classes, b2c("nonutf8-name", nonUTF8), b2c("special-file", special), b2c("socket", sockets), b2c("xattr", xattrs),
 		b2c("multichunk-file", multichunk), b2c("zero-run>=512K", zerorun), b2c("hardlink-group", len(groups)), b2c("hardlink-group-nonregular", len(groupsNon)),
-		b2c("symlink", symlinks), b2c("odd-mtime", oddTime), b2c("special-mode-bits", sbits), b2c("owner!=root", owned),
+		b2c("symlink", symlinks), b2c("odd-mtime", oddTime), b2c("mtime>2262", farTime), b2c("special-mode-bits", sbits), b2c("owner!=root", owned),
 		"repo=v"+cfg.Version, "compression="+cfg.Compression, fmt.Sprintf("packsize=%d", cfg.PackSize), fmt.Sprintf("readconc=%d", cfg.ReadConc),
 		fmt.Sprintf("vmem=%v", cfg.Vmem), fmt.Sprintf("with-atime=%v", cfg.WithAtime), fmt.Sprintf("restore-sparse=%v", cfg.Sparse),
 		fmt.Sprintf("restore-verify=%v", cfg.Verify), fmt.Sprintf("restore-subfolder=%v", cfg.Subfolder))
@@ -1281,6 +1297,15 @@ func TestVerifC01KnownShapes(t *testing.T) {
 				Xattrs: []vXattrC01{{"user.\xff", []byte("x")}, {"user.valid-\u00fc", []byte("y")}, {"user.lat\xe9n\xfe", []byte{}}}}),
 		}}
 		vRunC01(t, st, sp, []string{"probe=xattr-name-invalid-utf8"})
+	}
+	if caps.Time64 {
+		// beyond the range of time.Time.UnixNano (2262-04-11), within the range of ext4 (2446)
+		far := meta(vEntC01{Name: "far-future", Kind: 'f', Segs: []vSegC01{{K: 't', N: 10, Seed: 3}}})
+		far.Msec, far.Mnsec = 10000000000, 5
+		far2 := meta(vEntC01{Name: "ext4-max", Kind: 'f'})
+		far2.Msec, far2.Mnsec = 15032385535, 999999999
+		sp := &vSpecC01{Root: root, Cfg: cfg, Ents: []vEntC01{far, far2}}
+		vRunC01(t, st, sp, []string{"probe=mtime-beyond-2262"})
 	}
 	if caps.LinkSymlink && caps.LinkSpecial && caps.Mknod {
 		dev := meta(vEntC01{Name: "cdev", Kind: 'c', Rdev: unix.Mkdev(1, 3)})
